@@ -217,5 +217,8 @@ def run_case(case: Case, name: str):
             sp = sum((to_real(lift(v)) for v in pred.values() if F.finite(v)), z3.RealVal(0))
             rw = sum((to_real(lift(o)) - to_real(lift(q)) for o, q in row_terms), z3.RealVal(0))
             case.prove(p, so - sp == rw, "sum(observed) - sum(predicted) == sum(row-wise savings)", replay=rp)
+        # translation validation of the carriers on this path (every path in thorough, every 4th in quick)
+        F.validate_frame(case, p, out, (lambda st: lambda env: F.model(lay, tz=str(idx.tz))._predict(F.float_frame(idx, env, st[0], st[1])))((ts, os_)),
+                         ["predicted", "heating_load", "cooling_load"] + (["observed"] if with_obs else []), stride=1 if case.tier == "thorough" else 4)
         if len(case.rep["samples"]) < 2 and p.model is not None:
             case.sample(dict(temperature_states=ts, observed_states=os_, witness=model_env(p.model, case.inputs)))
